@@ -1291,6 +1291,13 @@ func (s *sctx) packageItem(content string) Item {
 			it.Pre = append(it.Pre, s.defs[u]...)
 		}
 	}
+	if r.IntN(3) == 0 {
+		// packages the snapshot does not write itself: the user package and other built-in ones
+		use += " " + litString([]string{"cl-user", "common-lisp-user", "gi", "bag", "flavors", "cl-user"}[r.IntN(6)])
+		if r.IntN(3) == 0 {
+			use += " " + litString([]string{"gi", "clos", "test"}[r.IntN(3)])
+		}
+	}
 	opts := []string{use + ")"}
 	if r.IntN(2) == 0 {
 		var nn []string
